@@ -502,24 +502,41 @@ func runCheck(spec *CheckSpec, tier string, seed, workers int) int {
 		return spec.Runs[0]
 	}
 	var replayErrs []string
-	for k, cs := range byRun(cexCases, func(c replayCase) HarnessRun { return runOfHarness(c.Harness) }) {
-		res, err := replayRun(spec, replayers[k], sess.OutDir, "cex_"+strings.ReplaceAll(k, "/", "_"), cs)
-		if err != nil {
-			replayErrs = append(replayErrs, err.Error())
-			continue
-		}
-		for id, rr := range res {
-			cv := cexIdx[id]
-			cv.Native = rr
-			switch cv.V.Kind {
-			case "assert":
-				cv.Confirmed = contains(rr.Failed, cv.V.Label)
-			case "panic":
-				cv.Confirmed = rr.Panic != ""
-			case "deadlock":
-				cv.Confirmed = contains(rr.Failed, "deadlock")
+	// Native confirmation. Goroutines the code under test starts with a plain `go`
+	// statement are not under the schedule controller, so a concurrent counterexample
+	// may need more than one native attempt; up to three are made.
+	attempts := 1
+	if spec.Instrument {
+		attempts = 3
+	}
+	pending := cexCases
+	for a := 0; a < attempts && len(pending) > 0; a++ {
+		for k, cs := range byRun(pending, func(c replayCase) HarnessRun { return runOfHarness(c.Harness) }) {
+			res, err := replayRun(spec, replayers[k], sess.OutDir, "cex_"+strings.ReplaceAll(k, "/", "_"), cs)
+			if err != nil {
+				replayErrs = append(replayErrs, err.Error())
+				continue
+			}
+			for id, rr := range res {
+				cv := cexIdx[id]
+				cv.Native = rr
+				switch cv.V.Kind {
+				case "assert":
+					cv.Confirmed = contains(rr.Failed, cv.V.Label)
+				case "panic":
+					cv.Confirmed = rr.Panic != ""
+				case "deadlock":
+					cv.Confirmed = contains(rr.Failed, "deadlock")
+				}
 			}
 		}
+		var next []replayCase
+		for _, c := range pending {
+			if cv := cexIdx[c.ID]; cv != nil && !cv.Confirmed {
+				next = append(next, c)
+			}
+		}
+		pending = next
 	}
 	// propagate confirmation to un-replayed duplicates of a confirmed key
 	confirmedKeys := map[string]bool{}
